@@ -251,7 +251,31 @@ func c12ChainDo(cs *c12ChainServer, conn c12Conn, c *c12ChainCase) (c12ChainObs,
 	return obs, nil
 }
 
-const c12ChainPrefix = "C12 Chain/case-"
+// c12ChainDoRetry: a transport error (connection reset, keep-alive race, client
+// timeout on a busy machine) says nothing about what the server saw, so such an
+// observation is inconclusive. The request is sent again, under a fresh test name
+// (a second request of the same name would itself be a deviation), at most three
+// more times; a server that persistently gives no response is still judged as such.
+// c.Name is the name of the attempt that is judged.
+func c12ChainDoRetry(cs *c12ChainServer, conn c12Conn, c *c12ChainCase, k int64) (c12ChainObs, int, error) {
+	obs, err := c12ChainDo(cs, conn, c)
+	retries := 0
+	for err == nil && obs.TransportEr != "" && retries < 3 {
+		retries++
+		first := obs.TransportEr
+		c.Name = c12ChainPrefix + strconv.FormatInt(k+int64(retries)*c12ChainRetryBase, 10)
+		obs, err = c12ChainDo(cs, conn, c)
+		if obs.TransportEr != "" {
+			obs.TransportEr = first + " | retry: " + obs.TransportEr
+		}
+	}
+	return obs, retries, err
+}
+
+const (
+	c12ChainPrefix    = "C12 Chain/case-"
+	c12ChainRetryBase = int64(1) << 40 // far above any case number
+)
 
 // c12ChainSplit attributes the server's output to test names; the second
 // result are lines that do not start with "<a test name of this run>: ".
@@ -293,6 +317,11 @@ func c12ChainJudge(c *c12ChainCase, obs c12ChainObs) c12Result {
 		res.outcome += ":no-response"
 	}
 	c12JudgeMatrix(&res, c.Name, c.Exp, c.Act, obs.Lines, &served, ":chain:"+c.Procedure)
+	if obs.TransportEr != "" {
+		for i := range res.verdicts {
+			res.verdicts[i].detail += " [the client got no response, also when the request was repeated under fresh names: " + obs.TransportEr + "]"
+		}
+	}
 	return res
 }
 
@@ -407,7 +436,7 @@ func TestVerifC12Chain(t *testing.T) {
 			t.Fatalf("replay: unknown connection kind %q", c.Conn)
 		}
 		cs := serverFor(conn)
-		obs, err := c12ChainDo(cs, conn, &c)
+		obs, _, err := c12ChainDoRetry(cs, conn, &c, 1)
 		if err != nil {
 			t.Fatal(err)
 		}
@@ -457,9 +486,12 @@ outer:
 				Kind: "chain", Name: c12ChainPrefix + strconv.FormatInt(k, 10),
 				Conn: a.Conn.Label, Procedure: a.Procedure, Exp: exps[ei], Act: a.Act,
 			}
-			obs, err := c12ChainDo(serverFor(a.Conn), a.Conn, &c)
+			obs, retries, err := c12ChainDoRetry(serverFor(a.Conn), a.Conn, &c, k)
 			if err != nil {
 				t.Fatalf("case %+v: %v", c, err)
+			}
+			if retries > 0 {
+				r.Count("chain:requests-repeated-after-transport-error", int64(retries))
 			}
 			all = append(all, done{c, obs})
 		}
